@@ -51,6 +51,28 @@ theorem reserve_exact_refused_mut (env : Env) (v : Vec) (n : Nat) (hk : env.kind
 theorem rev_reserve_refused (env : Env) (v : Vec) (n : Nat) (hn : n > v.cap - v.len) (hc : v.len + n > env.capIn) :
     rreserve env v n = none := Coll.rreserve_refused env v n hn hc
 
+/-- "capacity overflow": a request whose total `len + additional` exceeds the largest element count with a valid
+    layout (`maxCap = isize::MAX / size_of::<T>()`) is refused by EVERY kind of vector — `FixedBumpVec`, `BumpVec`,
+    `MutBumpVec`, `MutBumpVecRev` —, whatever the allocator could give, before anything is touched
+    (`try_*`: `Err`, panicking twin: "capacity overflow"); with the `*_failed_unchanged` theorems below: the
+    vector is as it was -/
+theorem reserve_overflow_refused (env : Env) (v : Vec) (n m : Nat) (hm : env.maxCap = some m) (hl : v.len ≤ v.cap)
+    (hc : v.cap ≤ m) (h : v.len + n > m) : reserve env v n = none := Coll.reserve_overflow_refused env v n m hm hl hc h
+
+theorem reserve_exact_overflow_refused (env : Env) (v : Vec) (n m : Nat) (hm : env.maxCap = some m) (hl : v.len ≤ v.cap)
+    (hc : v.cap ≤ m) (h : v.len + n > m) : reserveExact env v n = none :=
+  Coll.reserveExact_overflow_refused env v n m hm hl hc h
+
+theorem rev_reserve_overflow_refused (env : Env) (v : Vec) (n m : Nat) (hm : env.maxCap = some m) (hl : v.len ≤ v.cap)
+    (hc : v.cap ≤ m) (h : v.len + n > m) : rreserve env v n = none := Coll.rreserve_overflow_refused env v n m hm hl hc h
+
+/-- non-vacuity: a `BumpVec<u64>` (`maxCap = (2^63-1)/8`) holding 3 of 4: `try_reserve_exact(usize::MAX/8 + 1)` and
+    `try_reserve(usize::MAX)` are refused, `try_reserve(1)` is not -/
+example : reserveExact { kind := .bump, maxCap := some 1152921504606846975 } (Vec.mk' [1, 2, 3] 1) 2305843009213693952 = none ∧
+    reserve { kind := .bump, maxCap := some 1152921504606846975 } (Vec.mk' [1, 2, 3] 1) 18446744073709551615 = none ∧
+    reserve { kind := .bump, maxCap := some 1152921504606846975 } (Vec.mk' [1, 2, 3] 1) 1 = some (Vec.mk' [1, 2, 3] 1) := by
+  decide
+
 /-- a reservation never touches the vector it is refused for (`reserve` / `reserve_exact` are functions of the
     vector: the caller keeps `v`), and it is refused only when it does not fit -/
 theorem reserve_refused_only_if_needed (env : Env) (v : Vec) (n : Nat) (h : reserve env v n = none) :
